@@ -8,7 +8,7 @@ from .. import gen, impl, oracle, ser, stream
 
 ID = "C03"
 LEVEL = "proof"
-PROPS_MODULE = "SymmModel.Props.C03"
+PROPS_MODULE = "SymmModel.Props.C03All"
 THEOREMS = [
     "SymmModel.C03.isPerm_iff_perm",
     "SymmModel.C03.koszul_eq_invOdd",
@@ -27,10 +27,22 @@ THEOREMS = [
     "SymmModel.C03.valid_gives_hyps",
     "SymmModel.C03.phaseGlobal_phase_needs_pm",
     "SymmModel.C03.phaseTranspose_phase_needs_distinct_keys",
-    "SymmModel.C03.transposeF_phase_needs_length"
+    "SymmModel.C03.transposeF_phase_needs_length",
+    "SymmModel.C03.gradedSign_def",
+    "SymmModel.C03.gradedContract_def",
+    "SymmModel.C03.freeAxes_eq",
+    "SymmModel.C03.tensordotF_refines_graded",
+    "SymmModel.C03.tensordotF_refines_graded_at",
+    "SymmModel.C03.tensordotF_refines_graded_distinct_labels",
+    "SymmModel.C03.ketbra_flip_branch_independent",
+    "SymmModel.C03.prepared_operands",
+    "SymmModel.C03.matmulF_refines_graded",
+    "SymmModel.C03.gradedTrace_def",
+    "SymmModel.C03.traceF_refines_graded",
+    "SymmModel.C03.tensordotF_refines_graded_GRat"
 ]
-LEAN_FILES = ["SymmModel.Props.C03", "SymmModel.Proofs.Koszul"]
-PLANNED = ["tensordotF_refines_graded (both modes, both flip branches, even/odd charge) and its traceF/matmulF/einsumF corollaries"]
+LEAN_FILES = ["SymmModel.Props.C03", "SymmModel.Proofs.Koszul", "SymmModel.Props.C03b", "SymmModel.Props.C03All", "SymmModel.Proofs.Graded"]
+PLANNED = ["fused and auto mode of tensordotF (via C05/C06)", "einsumF"]
 RULE = ("random fermionic arrays over all symmetries (static/generic classes), even and odd total charge with "
         "labels, sparse, pending lazy signs; every permutation for transpose; tensordot over random axes in modes "
         "auto/fused/blockwise; trace, matmul, single-array einsum. Compared with the Lean model and an independent "
